@@ -182,6 +182,8 @@ func (g *G) genStep(cfg *MachineCfg, kind string) *world.Step {
 		return &world.Step{Kind: "tx", Tx: g.genDidTx()}
 	case "pnft":
 		return &world.Step{Kind: "tx", Tx: g.genPnftTx()}
+	case "read_did":
+		return g.genDidReads()
 	case "sim_aol":
 		return g.genPerturb(g.genAolMsg, true)
 	case "sim_did":
@@ -267,8 +269,11 @@ func runMachine(t *testing.T, cfg *MachineCfg) {
 }
 
 // replayHistory re-executes a stored history without any generator.
-func replayHistory(cfg *MachineCfg, steps []world.Step, aolGenesis, didGenesis, pnftGenesis json.RawMessage) (*world.World, error) {
+func replayHistory(cfg *MachineCfg, steps []world.Step, aolGenesis, didGenesis, pnftGenesis json.RawMessage, more ...func(*world.Options)) (*world.World, error) {
 	opt := world.Options{Prop: cfg.Prop, Also: alsoSet(cfg.Also), Open: OpenFindings(), Twin: cfg.Twin, Perturb: cfg.Perturb, AolGenesis: aolGenesis, DidGenesis: didGenesis, PnftGenesis: pnftGenesis}
+	for _, f := range more {
+		f(&opt)
+	}
 	w, err := world.New(opt)
 	if err != nil {
 		return nil, err
